@@ -1419,6 +1419,32 @@ func (oa *orderAnalysis) comparatorAlts(v ssa.Value, depth int, site string) []c
 	switch x := v.(type) {
 	case *ssa.ChangeType:
 		return oa.comparatorAlts(x.X, depth, site)
+	case *ssa.FreeVar:
+		// a comparator captured by a closure: the variable it is bound to
+		if cell := cellOf(x); cell != nil {
+			if al, ok := cell.(*ssa.Alloc); ok {
+				sts := core.AllStoresToCell(al)
+				if len(sts) == 1 {
+					return oa.comparatorAlts(sts[0].Val, depth, site)
+				}
+				return nil
+			}
+			return oa.comparatorAlts(cell, depth, site)
+		}
+		return nil
+	case *ssa.UnOp:
+		if x.Op == token.MUL {
+			if fv, ok := x.X.(*ssa.FreeVar); ok {
+				return oa.comparatorAlts(fv, depth, site)
+			}
+			if al, ok := x.X.(*ssa.Alloc); ok {
+				sts := core.AllStoresToCell(al)
+				if len(sts) == 1 {
+					return oa.comparatorAlts(sts[0].Val, depth, site)
+				}
+			}
+		}
+		return nil
 	case *ssa.Parameter:
 		var res []cmpAlt
 		fn := x.Parent()
